@@ -41,11 +41,38 @@ def union_word_leaf(word, align_of=None):
     return leaf
 
 
+INBOUNDS_PTR_ARITH = ("add", "sub", "offset", "byte_add", "byte_sub", "byte_offset")
+
+
 def tag_rules(F, rep, tag, gen, rule="R-TAG"):
     """Constructors store `into_raw | tag`, the test reads bit 0, `borrow` strips exactly the tag: evaluated on sample words."""
     bits = F.pointer_bits
     SAMPLES = [P for P in globals()["SAMPLES"] if P < (1 << bits)]  # (addresses of the target's width)
     symx.set_facts(F)
+    # ------------------------------------------------------------- R-TAG: the tag byte is not stepped over with in-bounds arithmetic
+    # "including ... zero-sized types": the value pointer of a zero-sized payload is the one-past-the-end address of its block, so
+    # `ptr.byte_add(1)` / `add` / `offset` (which require the result to stay inside the allocation) are undefined behaviour there;
+    # the integer round trip or the `wrapping_*` methods are not
+    up = F.handle_paths.get("ArcUnion")
+    nsite = 0
+    for b in F.body_list:
+        if b["kind"] not in ("Fn", "AssocFn", "Closure"):
+            continue
+        owner = F.body(b["owner"]) if b["kind"] == "Closure" else b
+        st = (owner.get("impl") or {}).get("self_ty")
+        tys = list(owner.get("inputs", [])) + ([owner["output"]] if "output" in owner else []) + ([st] if st is not None else [])
+        if not any(F.mentions_adt(t, up) for t in tys):
+            continue
+        for bl in b["blocks"]:
+            t = bl["term"]
+            if t["k"] != "call":
+                continue
+            path = atomics.callee_of(t) or ""
+            if path.split("::")[-1] in INBOUNDS_PTR_ARITH and (path.startswith("<*const T>::") or path.startswith("<*mut T>::") or path.startswith("<core::ptr::non_null::NonNull<T>>::")):
+                nsite += 1
+                rep.bad(rule, "%s/in-bounds-arithmetic:%s" % (b["key"], path.split("::")[-1]), "the union's word / a payload pointer is moved with `%s`, which requires the result to stay inside the allocation: the value pointer of a zero-sized payload already is the one-past-the-end address of its block, so stepping over the tag byte is undefined behaviour for such payloads (use the integer form or `wrapping_*`)" % path.split("::")[-1], F.loc(b, t["span"]), tag)
+    if not nsite:
+        rep.ok(rule, "no in-bounds pointer arithmetic in the union's code", cfg=tag)
     # ------------------------------------------------------------- R-TAG: constructors
     for name, idx in (("from_first", 0), ("from_second", 1)):
         for b in F.method("ArcUnion", name):
@@ -292,6 +319,21 @@ def _variant_arms(F, B, b):
                     if len(arms) == 2:
                         r = {k: B.reach(t, normal_only=True) for k, t in arms.items()}
                         return {"First": r["First"] - r["Second"], "Second": r["Second"] - r["First"]}
+        if c and c.get("op") in ("Eq", "Ne"):
+            # the tag test written out: `(word as usize) & 1 == 0` (what `is_first` itself is, judged by R-TAG)
+            ea, eb = symx.expr(F, B, c["a"]), symx.expr(F, B, c["b"])
+            for x, y in ((ea, eb), (eb, ea)):
+                if y[0] == "const" and y[1] in (0, 1) and x[0] == "bin" and x[1] == "BitAnd" and ((x[3] == ("const", 1) and _mentions_union_word(x[2])) or (x[2] == ("const", 1) and _mentions_union_word(x[3]))):
+                    arms = {}
+                    for tgt, tv in B.switch_truth(tt).items():
+                        holds = (tv != c["neg"]) == (c["op"] == "Eq")  # `tag == y` holds on this edge
+                        tag_is_zero = holds if y[1] == 0 else not holds
+                        arms["First" if tag_is_zero else "Second"] = tgt
+                    if len(arms) == 2:
+                        r = {k: B.reach(t, normal_only=True) for k, t in arms.items()}
+                        base = {"First": r["First"] - r["Second"], "Second": r["Second"] - r["First"]}
+                        via = _through_private_enum(F, B, b, base)
+                        return via or base
         l = operand_place(tt["discr"])
         if l is None:
             continue
@@ -315,6 +357,53 @@ def _variant_arms(F, B, b):
         r = {k: B.reach(t, normal_only=True) for k, t in arms.items()}
         excl = {"First": r["First"] - r["Second"], "Second": r["Second"] - r["First"]}
         return excl
+    return None
+
+
+def _through_private_enum(F, B, b, base):
+    """`match self.variant()` with a private fieldless enum decoded from the tag: the enum value is assigned one constant variant in
+    each arm of the tag test and switched on later; the later switch's arms inherit the variant names. Returns the arm map of that
+    later switch, or None."""
+    for bi, bl in enumerate(b["blocks"]):
+        tt = bl["term"]
+        if tt["k"] != "switch":
+            continue
+        l = operand_place(tt["discr"])
+        if l is None:
+            continue
+        d = B.single_def(l["l"])
+        if not d or d[0] != "assign" or d[3]["k"] != "discr" or d[3]["place"]["p"]:
+            continue
+        cur = d[3]["place"]["l"]
+        ty = F.ty(b["locals"][cur]["ty"])
+        if ty["k"] != "adt" or not ty.get("local") or ty["path"] in F.path_to_handle or ty["path"] == F.handle_paths.get("ArcUnionBorrow"):
+            continue
+        for _ in range(8):
+            ds = B.defs().get(cur, [])
+            if len(ds) == 1 and ds[0][0] == "assign" and ds[0][3]["k"] == "use" and operand_place(ds[0][3]["op"]) is not None and not operand_place(ds[0][3]["op"])["p"]:
+                cur = operand_place(ds[0][3]["op"])["l"]
+            else:
+                break
+        ds = B.defs().get(cur, [])
+        names = {}
+        ok = len(ds) >= 2
+        for dd in ds:
+            if dd[0] != "assign" or dd[3]["k"] != "agg" or dd[3].get("ops"):
+                ok = False
+                break
+            where = [k for k in ("First", "Second") if dd[1] in base[k]]
+            if len(where) != 1 or names.get(dd[3].get("vi"), where[0]) != where[0]:
+                ok = False
+                break
+            names[dd[3].get("vi")] = where[0]
+        if not ok or sorted(names.values()) != ["First", "Second"]:
+            continue
+        tgts = {v: t2 for v, t2 in tt["arms"]}
+        arms = {}
+        for vi, nm in names.items():
+            arms[nm] = tgts.get(vi, tt["otherwise"])
+        r = {k: B.reach(t, normal_only=True) for k, t in arms.items()}
+        return {"First": (r["First"] - r["Second"]) | base["First"], "Second": (r["Second"] - r["First"]) | base["Second"]}
     return None
 
 
